@@ -7,6 +7,21 @@ HERE = os.path.dirname(os.path.dirname(os.path.abspath(__file__)))
 
 # property -> (technique, level text, level note, design ref)
 CLAIMED = {
+    "C06": (
+        "loop-shape and handler rules over the dispatch code on its CFG (leaf-key checks of the "
+        "prefix-tree walk, per-candidate try/except isolation, prefix filter normal form, "
+        "per-service prefix computation, first-non-constant break, SID shift normal form)",
+        "Decides the structural conditions of exact attribution: the tree walk collects every "
+        "node on the path and only stops on a missing byte; each candidate (service, global "
+        "negative response, coding object) is tried in its own handler covering DecodeError and "
+        "nothing in a candidate loop can abort it; candidates are filtered by the byte-prefix "
+        "test; the tree holds, per service, the prefixes of request, positive, negative and "
+        "global negative responses computed with that service's request prefix; the constant "
+        "prefix stops at the first non-constant parameter; the binner returns the first request "
+        "byte; responses are looked up through their request.",
+        "Not decided: attribution for concrete sets of services and messages. Known finding: "
+        "services with an empty constant prefix are never found (pinned by the test suite).",
+        "DESIGN.md section 3, C06"),
     "C02": (
         "symbolic normalisation of the integer encoding formulas (both directions) against the "
         "ODX table, normal-form equality of padding / byte-length / byte-reversal formulas between "
